@@ -30,6 +30,9 @@ import (
 
 	"keepverif/harness/hx"
 
+	tsscrypto "github.com/bnb-chain/tss-lib/crypto"
+	"github.com/bnb-chain/tss-lib/ecdsa/keygen"
+	"github.com/bnb-chain/tss-lib/tss"
 	golog "github.com/ipfs/go-log/v2"
 	beaconchain "github.com/keep-network/keep-core/pkg/beacon/chain"
 	"github.com/keep-network/keep-core/pkg/beacon/dkg/result"
@@ -42,6 +45,7 @@ import (
 	"github.com/keep-network/keep-core/pkg/protocol/inactivity"
 	"github.com/keep-network/keep-core/pkg/subscription"
 	"github.com/keep-network/keep-core/pkg/tbtc"
+	"github.com/keep-network/keep-core/pkg/tecdsa"
 	tdkg "github.com/keep-network/keep-core/pkg/tecdsa/dkg"
 )
 
@@ -138,7 +142,16 @@ func (b *bchain) SubmitDKGResult(_ beaconchain.GroupMemberIndex, _ *beaconchain.
 // tchain: tbtc.Chain stub — the submitters consult it only after their threshold gate.
 type tchain struct {
 	tbtc.Chain
-	s chain.Signing
+	s    chain.Signing
+	pref [32]byte
+}
+
+// the chain-specific hash of the member's own result / claim is an input of the case
+func (t tchain) CalculateDKGResultSignatureHash(*ecdsa.PublicKey, []group.MemberIndex, uint64) (tdkg.ResultSignatureHash, error) {
+	return t.pref, nil
+}
+func (t tchain) CalculateInactivityClaimHash(*inactivity.ClaimPreimage) (inactivity.ClaimHash, error) {
+	return t.pref, nil
 }
 
 func (t tchain) Signing() chain.Signing              { return t.s }
@@ -147,40 +160,14 @@ func (t tchain) GetWallet([20]byte) (*tbtc.WalletChainData, error) {
 	return nil, fmt.Errorf("no wallet in the stub chain")
 }
 
-// resultSigner: SignResult signs the chosen preferred hash with the chain key; verification is the
-// real tbtc dkgResultSigner.
-type resultSigner struct {
-	real tdkg.ResultSigner
-	s    chain.Signing
-	pref tdkg.ResultSignatureHash
-}
-
-func (r *resultSigner) SignResult(*tdkg.Result) (*tdkg.SignedResult, error) {
-	sig, err := r.s.Sign(r.pref[:])
+// dkgResult is a tecdsa DKG result carrying just a group public key (all SignResult needs).
+func dkgResult(grp *group.Group) *tdkg.Result {
+	x, y := tss.EC().ScalarBaseMult([]byte{11})
+	pt, err := tsscrypto.NewECPoint(tss.EC(), x, y)
 	if err != nil {
-		return nil, err
+		panic(err)
 	}
-	return &tdkg.SignedResult{PublicKey: r.s.PublicKey(), Signature: sig, ResultHash: r.pref}, nil
-}
-func (r *resultSigner) VerifySignature(sr *tdkg.SignedResult) (bool, error) {
-	return r.real.VerifySignature(sr)
-}
-
-type claimSigner struct {
-	real inactivity.ClaimSigner
-	s    chain.Signing
-	pref inactivity.ClaimHash
-}
-
-func (r *claimSigner) SignClaim(*inactivity.ClaimPreimage) (*inactivity.SignedClaimHash, error) {
-	sig, err := r.s.Sign(r.pref[:])
-	if err != nil {
-		return nil, err
-	}
-	return &inactivity.SignedClaimHash{PublicKey: r.s.PublicKey(), Signature: sig, ClaimHash: r.pref}, nil
-}
-func (r *claimSigner) VerifySignature(sc *inactivity.SignedClaimHash) (bool, error) {
-	return r.real.VerifySignature(sc)
+	return &tdkg.Result{Group: grp, PrivateKeyShare: tecdsa.NewPrivateKeyShare(keygen.LocalPartySaveData{ECDSAPub: pt})}
 }
 
 // ---- op ---------------------------------------------------------------------
@@ -343,8 +330,8 @@ func exec(op string) (string, string) {
 			verdict = "err:submission"
 		}
 	case "tecdsa":
-		tc := tchain{s: own}
-		signer := &resultSigner{real: tbtc.VerifC13NewDkgResultSigner(tc), s: own, pref: hash32("tecdsa", o.pref)}
+		tc := tchain{s: own, pref: hash32("tecdsa", o.pref)}
+		signer := tbtc.VerifC13NewDkgResultSigner(tc) // the real signer: SignResult and VerifySignature
 		submitter := tbtc.VerifC13NewDkgResultSubmitter(tc, &tbtc.GroupParameters{GroupSize: o.n, GroupQuorum: o.q, HonestThreshold: o.h})
 		var msgs []net.Message
 		for i, m := range o.msgs {
@@ -352,7 +339,7 @@ func exec(op string) (string, string) {
 				m.idx, hash32("tecdsa", m.hash), sigs[i], pub(m.msgKey), session(m.sess))})
 		}
 		selfSig, valid, submitErr, runErr = tdkg.VerifC13RunPublication(ctx, logger, uint8(o.self), grp, mv,
-			session(o.sess), fchan{}, signer, submitter, msgs)
+			session(o.sess), fchan{}, signer, submitter, dkgResult(grp), msgs)
 		switch {
 		case submitErr == nil:
 			verdict = "submit" // gate passed; the stub chain then reports "not awaiting a result"
@@ -362,8 +349,8 @@ func exec(op string) (string, string) {
 			verdict = "err:submission"
 		}
 	case "inact":
-		tc := tchain{s: own}
-		signer := &claimSigner{real: tbtc.VerifC13NewInactivityClaimSigner(tc), s: own, pref: hash32("inact", o.pref)}
+		tc := tchain{s: own, pref: hash32("inact", o.pref)}
+		signer := tbtc.VerifC13NewInactivityClaimSigner(tc) // the real signer: SignClaim and VerifySignature
 		submitter := tbtc.VerifC13NewInactivityClaimSubmitter(tc, &tbtc.GroupParameters{GroupSize: o.n, GroupQuorum: o.q, HonestThreshold: o.h})
 		var msgs []net.Message
 		for i, m := range o.msgs {
